@@ -5,6 +5,7 @@
 package main
 
 import (
+	"encoding/json"
 	"flag"
 	"fmt"
 	"os"
@@ -28,14 +29,34 @@ func main() {
 		dumpKeys = flag.Bool("dump-keys", false, "print key sinks and templates")
 		verbose  = flag.Bool("v", false, "print every obligation")
 		manifest = flag.Bool("manifest", false, "print MANIFEST.json generated from the property table")
+		rulesOf  = flag.String("rules-of", "", "print a regexp matching the rules serving a property")
+		selfJSON = flag.String("selftest-json", "", "self-test result file to embed into the evidence (thorough tier)")
 	)
 	flag.Parse()
 	if *manifest {
 		os.Exit(printManifest())
 	}
+	if *rulesOf != "" {
+		p, ok := propertyTable()[*rulesOf]
+		if !ok {
+			os.Exit(2)
+		}
+		var names []string
+		for _, r := range p.Rules {
+			if i := strings.Index(r, "~"); i >= 0 {
+				r = r[:i]
+			}
+			names = append(names, r)
+		}
+		fmt.Printf("^(%s)$\n", strings.Join(names, "|"))
+		os.Exit(0)
+	}
+	selftestJSON = *selfJSON
 	code := run(*prop, *tier, *repo, *verif, *rulesF, *noEv, *dumpKeys, *verbose)
 	os.Exit(code)
 }
+
+var selftestJSON string
 
 func run(prop, tier, repo, verif, rulesF string, noEv, dumpKeys, verbose bool) (code int) {
 	defer func() {
@@ -96,6 +117,11 @@ func run(prop, tier, repo, verif, rulesF string, noEv, dumpKeys, verbose bool) (
 	}
 
 	props := propertyTable()
+	if tier == "thorough" {
+		for _, p := range props {
+			p.Rules = append(append([]string{}, p.Rules...), "CG1")
+		}
+	}
 	var ids []string
 	if prop == "all" {
 		for id := range props {
@@ -270,6 +296,7 @@ func run(prop, tier, repo, verif, rulesF string, noEv, dumpKeys, verbose bool) (
 					"the frozen tables named in DESIGN.md (canonical value types, read-operation list, expected rank/negation/range tables)",
 				},
 				"exhaustive": true,
+				"selftest":   loadSelftest(),
 				"floor_failures": floorFail,
 			},
 			Assumptions: p.Assumptions,
@@ -291,4 +318,20 @@ func run(prop, tier, repo, verif, rulesF string, noEv, dumpKeys, verbose bool) (
 			id, verdict, tier, len(p.Rules), n, okc, viol, undec, info, c.NFuncs, wall)
 	}
 	return exit
+}
+
+// loadSelftest embeds the mutation self-test summary produced by selftest.sh (thorough tier).
+func loadSelftest() interface{} {
+	if selftestJSON == "" {
+		return "not run in this tier"
+	}
+	b, err := os.ReadFile(selftestJSON)
+	if err != nil {
+		return "self-test result unreadable: " + err.Error()
+	}
+	var v interface{}
+	if json.Unmarshal(b, &v) != nil {
+		return "self-test result unreadable"
+	}
+	return v
 }
